@@ -1470,6 +1470,12 @@ def balance_stoichiometry(
     subst_keys = list(reactants) + list(products)
 
     cks = Substance.composition_keys([substances[k] for k in subst_keys])
+    # keys listed with amount 0 in every species carry no constraint:
+    cks = [
+        ck
+        for ck in cks
+        if any(substances[sk].composition.get(ck, 0) != 0 for sk in subst_keys)
+    ]
 
     if parametric_symbols is None:
         parametric_symbols = numbered_symbols("x", start=1, integer=True, positive=True)
